@@ -40,7 +40,7 @@ func Register() {
 		},
 		// the service / feed chain of events (price feed, bindings priced through it) is long;
 		// give it a larger share of the operations here
-		Weights: map[string]int{"service": 30, "oraclefeed": 30},
+		Weights: map[string]int{"service": 30, "oraclefeed": 30, "random": 20},
 		Mods:    mixed(func() engine.Module { return NewReplicas() })})
 	engine.RegisterProfile(&engine.Profile{Name: "mixed-export", Tune: tune,
 		Mods: mixed(func() engine.Module { return NewExporter() })})
